@@ -81,7 +81,7 @@ func (u *executeUnit) prepareRun(r euReq) euResp {
 			return euResp{}
 		}
 
-		u.runner.Runner.Forward(risc.Forward{Value: value, Register: u.runner.ForwardRegister})
+		u.runner.Runner.Forward(risc.Forward{Value: value, Register: u.runner.ReceiveRegister})
 		u.runner.Receiver = nil
 	}
 
